@@ -26,7 +26,7 @@ pub fn gen_case(r: &mut Rng, unsafe_names: bool) -> Case {
     let mut files: Vec<String> = vec![];
     for _ in 0..r.range(2, 5) {
         let depth = r.below(3);
-        let mut parts: Vec<String> = (0..depth).map(|_| r.pick(&["d", "e", "sub-dir", "2024.01", "v1.2"]).to_string()).collect();
+        let mut parts: Vec<String> = (0..depth).map(|_| r.pick(&["d", "e", "sub-dir", "2024.01", "v1.2", "design.md"]).to_string()).collect();
         if unsafe_names && depth > 0 && r.chance(1, 4) {
             parts[0] = "dir with space".to_string();
         }
